@@ -85,27 +85,86 @@ def decode_no_raw_echo(ctx, rule='A6'):
                    'connection encoder result, the stored / corrected design-variable value or the canonical '
                    'inactive value - never directly from the input vector',
                    f'names still carrying raw input at the return: {sorted(IN[r.id] & {x.id for x in ast.walk(elt) if isinstance(x, ast.Name)})}')
-    # inactive entries are routed through _get_inactive_value before the return
-    stores = [n for n in cfg.nodes if n.kind == 'stmt' and isinstance(n.ast, ast.Assign) and
-              '_get_inactive_value' in norm(n.ast.value) and 'used_values' in norm(n.ast.targets[0])]
-    ok = bool(stores)
-    if ok:
-        t = [p for p, lab in stores[0].pred if p.kind == 'test']
-        ok = bool(t) and 'is None' in norm(t[0].ast)
+    # inactive entries are routed through _get_inactive_value before the return; activeness is the None test of the
+    # same value, taken before the marks are overwritten.  Decided on get_graph together with the private helpers it
+    # calls, and for every spelling of "value if used else inactive value" (statement, conditional expression, flag).
+    unit = unit_functions(ctx.prog, fn)
+    imputes, actives, late = [], [], []
+    for f in unit:
+        flags = {}      # name -> (polarity, tested text) for `flag = x is not None`
+        for st in walk_fn(f):
+            if isinstance(st, ast.Assign) and isinstance(st.targets[0], ast.Name) and none_test(st.value):
+                flags[st.targets[0].id] = none_test(st.value)
+
+        def test_of(e):
+            r = none_test(e)
+            if r is None and isinstance(e, ast.Name) and e.id in flags:
+                r = flags[e.id]
+            if r is None and isinstance(e, ast.UnaryOp) and isinstance(e.op, ast.Not) and \
+                    isinstance(e.operand, ast.Name) and e.operand.id in flags:
+                pol, txt = flags[e.operand.id]
+                r = ({'is_none': 'not_none', 'not_none': 'is_none'}[pol], txt)
+            return r
+        parents = {}
+        for p_ in ast.walk(f.node):
+            for ch in ast.iter_child_nodes(p_):
+                parents[id(ch)] = p_
+        for c in walk_fn(f):
+            if isinstance(c, ast.Call) and call_name(c) == '_get_inactive_value':
+                # the branch of the closest None test the call sits in
+                node, side = c, None
+                while id(node) in parents:
+                    par = parents[id(node)]
+                    if isinstance(par, ast.IfExp) and test_of(par.test):
+                        pol, txt = test_of(par.test)
+                        in_body = any(x is node for x in ast.walk(par.body))
+                        side = ('is_none' if (pol == 'is_none') == in_body else 'not_none', txt, f, c)
+                        break
+                    if isinstance(par, ast.If) and test_of(par.test) and node is not par.test:
+                        pol, txt = test_of(par.test)
+                        in_body = any(node is x or any(node is y for y in ast.walk(x)) for x in par.body)
+                        side = ('is_none' if (pol == 'is_none') == in_body else 'not_none', txt, f, c)
+                        break
+                    node = par
+                if side is not None:
+                    imputes.append(side)
+            # activeness: a None test used as a value (list element, append argument, flag that is appended)
+            if isinstance(c, (ast.ListComp, ast.GeneratorExp)) and none_test(c.elt):
+                actives.append((none_test(c.elt), f, c))
+            if isinstance(c, ast.Call) and call_name(c) == 'append' and c.args:
+                r = test_of(c.args[0])
+                if r is not None:
+                    actives.append((r, f, c))
+    good_imp = [i for i in imputes if i[0] == 'is_none']
+    ok = bool(good_imp) and len(good_imp) == len(imputes)
     ctx.ob('A5', fkey(fn, 'A5', 'inactive-imputed'), ok, fn.where,
            'every entry that was not used (None) is replaced by the canonical inactive value of its variable '
-           'before the vector is returned', short(stores[0].ast) if stores else 'missing')
-    act = [s for s in walk_fn(fn) if isinstance(s, ast.Assign) and norm(s.targets[0]) == 'is_active']
-    ok = bool(act) and 'is not None' in norm(act[0].value) and bool(stores) and act[0].lineno < stores[0].lineno
+           'before the vector is returned (the call of _get_inactive_value sits on the is-None side of a test of the '
+           'used value)', '; '.join(f'{i[2].qualname} L{i[3].lineno} on the {i[0]} side of `{i[1]}`' for i in imputes)
+           or 'no guarded call of _get_inactive_value in get_graph or its helpers')
+    # activeness is `value is not None`; when the marks are overwritten in place, it is taken before that
+    ok = any(a[0][0] == 'not_none' for a in actives)
+    detail = '; '.join(f'{a[1].qualname} L{a[2].lineno}: {a[0][0]} of `{a[0][1]}`' for a in actives) or 'missing'
+    if ok:
+        for f in unit:
+            inplace = [st for st in walk_fn(f) if isinstance(st, ast.Assign) and isinstance(st.targets[0], ast.Subscript)
+                       and any(isinstance(c, ast.Call) and call_name(c) == '_get_inactive_value' for c in ast.walk(st.value))]
+            for st in inplace:
+                tab = norm(st.targets[0].value)
+                for a in actives:
+                    if a[1] is f and isinstance(a[2], (ast.ListComp, ast.GeneratorExp)) and \
+                            norm(a[2].generators[0].iter) in (tab, f'enumerate({tab})') and a[2].lineno > st.lineno:
+                        ok = False
+                        detail = f'L{a[2].lineno} derives activeness from `{tab}` after L{st.lineno} overwrote its None marks'
     ctx.ob('A5', fkey(fn, 'A5', 'activeness-before-imputation'), ok, fn.where,
-           'activeness is derived from the None marks before they are replaced by the inactive values',
-           short(act[0]) if act else 'missing')
+           'activeness is derived from the None marks before they are replaced by the inactive values', detail)
     # selection-choice entries: inactive choices are marked unused from the analyzer's activeness, which is
     # indexed in choice space (rule A21)
     from . import indexspace
     indexspace.check_index_spaces(ctx, [f'{GP}.get_graph', f'{GP}._update_comb_fixed_mask'])
     indexspace.check_translation(ctx)
-    uses = [x for x in walk_fn(fn) if isinstance(x, ast.Subscript) and norm(x.value) == 'sel_choice_is_active']
+    uses = [x for f_ in unit_functions(ctx.prog, fn) for x in walk_fn(f_)
+            if isinstance(x, ast.Subscript) and 'is_active' in norm(x.value) and 'sel_choice' in norm(x.value)]
     exists(ctx, 'A5', fn, uses, 'inactive-choices-marked',
            'the activeness reported by the analyzer decides which selection-choice entries are used')
 
